@@ -9,7 +9,7 @@ CONSTANTS
   Targets <- TargetsTwo
   MaxRec = 2
   MaxFatal = 1
-  Timer = TRUE
+  Timer = "any"
   EmitMode = "none"
   Record = TRUE
   Eager = FALSE
